@@ -92,6 +92,11 @@ pub fn run_in_child(env: &str, case_json: &[u8], obs: &mut Obs) -> Result<(), Fa
 			let what = it.next().unwrap_or("").to_string();
 			Err(Fail::new(sig, format!("with one CPU visible to the process: {what}")))
 		}
+		// the environment does not let the child restrict itself to one CPU: nothing to report
+		Some(r) if r.starts_with("machinery\t") => {
+			obs.label("one-cpu-restriction-unavailable");
+			Ok(())
+		}
 		other => crate::engine::die(&format!("one-CPU child gave no verdict (status {:?}, result {other:?})", out.status)),
 	}
 }
